@@ -224,7 +224,23 @@ class SectionEval:
                     out.append((cons, data_of(kind, val)))
                 return ('paths', out)
             kind, val = self._single(paths, 'from_lines')
+            for (test, srcs) in cxi.narrowed:
+                if 'mem' in srcs:
+                    # a range assertion on a value computed from the text:
+                    # it fails for some contents of a well-formed section
+                    return ('raise', 'AssertionError',
+                            ('`assert {}` fails for some contents: the '
+                             'value is built from more section bits than '
+                             'the range holds'.format(test),))
             return data_of(kind, val)
+        except CX.WideByteStore as e:
+            if 'mem' in e.sources():
+                return ('raise', 'ValueError',
+                        ('a byte is built from more bits of the text than it '
+                         'holds ({} live bits): the store raises for some '
+                         'contents of a well-formed section'.format(
+                             e.bv.width),))
+            return e
         except AnalysisError as e:
             return e
 
